@@ -1,0 +1,39 @@
+// +build verif
+
+// Package rand implements a cryptographically secure pseudorandom number
+// generator.
+package rand
+
+import (
+	"crypto/rand"
+	"io"
+	"sync/atomic"
+)
+
+type verifReader struct{}
+
+var verifSource atomic.Value // of func([]byte) bool
+
+// SetVerifSource installs a function that is offered every read first; when
+// it returns false (or src is nil) crypto/rand serves the read as usual.
+func SetVerifSource(src func(b []byte) bool) {
+	if src == nil {
+		src = func([]byte) bool { return false }
+	}
+	verifSource.Store(src)
+}
+
+func (verifReader) Read(b []byte) (int, error) {
+	if f, ok := verifSource.Load().(func([]byte) bool); ok && f(b) {
+		return len(b), nil
+	}
+	return rand.Read(b)
+}
+
+// Reader is the default reader.
+var Reader io.Reader = verifReader{}
+
+// Read implements io.Reader.Read.
+func Read(b []byte) (int, error) {
+	return Reader.Read(b)
+}
